@@ -712,10 +712,10 @@ def run_wrap(ctx):
     for fn in os.listdir(lib.GEN):
         if fn.startswith(("cases_C02_", ".cases_C02_")):
             os.remove(os.path.join(lib.GEN, fn))
-    rc, out = ctx.coq_make(["C02/Run.vo", "C02/RunConn.vo", "C02/ModelTime.vo", "C02/Examples.vo", "C02/ExamplesConn.vo", "C02/ExamplesTime.vo", "C02/Refuted.vo"] +
+    rc, out = ctx.coq_make(["C02/Run.vo", "C02/RunConn.vo", "C02/ModelTime.vo", "C02/RunTime.vo", "C02/Examples.vo", "C02/ExamplesConn.vo", "C02/ExamplesTime.vo", "C02/Refuted.vo"] +
                            (["C02/ExamplesBridge.vo"] if ctx.extra_dirs else []))
     if rc != 0:
-        rc2, out2 = ctx.coq_make(["C02/Run.vo", "C02/RunConn.vo", "C02/ModelTime.vo"])
+        rc2, out2 = ctx.coq_make(["C02/Run.vo", "C02/RunConn.vo", "C02/ModelTime.vo", "C02/RunTime.vo"])
         if rc2 != 0:
             ctx.broken("model-build", "model does not compile: " + out2[-500:])
             return False
